@@ -35,8 +35,8 @@ def toSizeT (x : Int) : Nat := (x % (two64 : Int)).toNat
 
 /-- the `(int)` cast of an `int64_t` -/
 def toInt32 (x : Int) : Int :=
-  let m := x % (2 ^ 32 : Int)
-  if m ≥ 2 ^ 31 then m - 2 ^ 32 else m
+  let m := x % (2 ^ intBits : Int)                  -- width of `int` regenerated (Gen.C04.intBits)
+  if m ≥ 2 ^ (intBits - 1) then m - 2 ^ intBits else m
 
 /-- the `(unsigned short)` cast that fills `array_t.size` -/
 def toArrSize (n : Nat) : Nat := n % 2 ^ arraySizeBits
@@ -51,7 +51,7 @@ def allocateArray (n : Int) (limit : Int) : SzR :=
   if u > toSizeT limit then .err else .ok (toArrSize u)
 
 /-- F_AGGREGATE: `allocate_empty_array ((int) offset)`, offset an unsigned short element count -/
-def aggregateArray (n : Nat) (limit : Int) : SzR := allocateArray (n % 2 ^ 16 : Nat) limit
+def aggregateArray (n : Nat) (limit : Int) : SzR := allocateArray (n % 2 ^ aggregateCountBits : Nat) limit
 
 /-- add_array (p, r): `res = p->size + r->size; if (res < 0 || res > MAX) error`; sizes are 16-bit fields -/
 def addArray (a b : Nat) (limit : Int) : SzR :=
